@@ -287,18 +287,21 @@ def judge_case(ctx, cfg, nserv, events):
             bad = [e for e in escapes if e[1].startswith("internal") or e[2]]
             if bad:
                 why = "an error other than the failing server's own or 'all servers down' escaped a key-addressed call (or something escaped with ignore_exc): %r" % (bad[:3],)
-        if why is None:
-            # recovery: heal everything, flush pending evictions, then three calls spaced > dead_timeout apart restore the rotation
+        for traffic in ("get", "get_many", "set_many", "delete"):
+            if why is not None:
+                break
+            # recovery: heal everything, flush pending evictions, then three rounds of calls spaced > dead_timeout apart restore the
+            # rotation - whatever KIND of key-addressed call the traffic consists of
             ev2 = events + [("heal", i) for i in range(nserv)]
             for k in KEYS:
-                ev2.append(("op", "get", [k]))
+                ev2.append(("op", traffic, [k, KEYS[0], KEYS[-1]]))
             for _ in range(3):
                 ev2.append(("adv", cfg[2] + 1))
                 for k in KEYS:
-                    ev2.append(("op", "get", [k]))
+                    ev2.append(("op", traffic, [k, KEYS[0], KEYS[-1]]))
             _, _, nodes2, dead2, _ = run_history(cfg, servers, ev2)
             if nodes2 != sorted(hs.server_name(s) for s in servers) or dead2:
-                why = "placement did not return to the original rotation after every server was healthy again: nodes %r dead %r" % (nodes2, dead2)
+                why = "placement did not return to the original rotation after every server was healthy again (traffic: %s calls only): nodes %r dead %r" % (traffic, nodes2, dead2)
         if why is None:
             # ... and under STEADY traffic (calls much closer together than dead_timeout) within two dead_timeout periods
             gap = max(1, cfg[2] // 4)
